@@ -156,17 +156,32 @@ struct Epoch {
     e: Vec<usize>,
 }
 
-fn judge_path(prog: &Rc<Prog>, setup: &Setup, hist: &[Op], stats: &mut Stats) {
+/// `slice`: Some(k) = every continue is made of a time-limited slice of k steps followed by an
+/// unlimited one (the messages of a line must arrive once however the host slices it)
+fn judge_path(prog: &Rc<Prog>, setup: &Setup, hist: &[Op], slice: Option<u64>, stats: &mut Stats) {
     let Ok(mut inst) = Inst::new(prog, setup) else { return };
     let version_warning = prog.json.contains("\"inkVersion\":20");
     let mut epoch = Epoch { w: vec![], e: vec![] };
+    let mut first_cont_of_epoch = true;
     let mut stopped_by_error = false;
     let mut bad: Option<(String, String)> = None;
     let mut log_start = 0usize; // handler log index where the current epoch starts
     let mut seen_choice_text: Vec<String> = vec![];
     for (i, op) in hist.iter().enumerate() {
         let could_continue = inst.observe(false)["can_continue"] == true;
-        let r = inst.apply(op);
+        let r = match (op, slice) {
+            (Op::Cont, Some(k)) if could_continue => {
+                let first = inst.apply(&Op::ContAsync(k));
+                if first == "ok:pending" {
+                    inst.apply(&Op::ContAsyncFinish)
+                } else if let Some(t) = first.strip_prefix("ok:done:") {
+                    format!("ok:{t}")
+                } else {
+                    first
+                }
+            }
+            _ => inst.apply(op),
+        };
         if *op == Op::Cont && !could_continue {
             // a refused continue (C09): must be an error and must not deliver anything (the
             // exactly-once accounting below would show a re-delivery)
@@ -187,17 +202,41 @@ fn judge_path(prog: &Rc<Prog>, setup: &Setup, hist: &[Op], stats: &mut Stats) {
         match op {
             Op::Cont => {
                 // the line this continue produced (also readable when cont() itself returned Err)
+                let mut step_w: Vec<usize> = vec![];
                 if let Some(t) = o["text"].as_str() {
-                    epoch.w.extend(markers(t, 'W'));
+                    step_w.extend(markers(t, 'W'));
                     epoch.e.extend(markers(t, 'E'));
                     for c in o["choices"].as_array().cloned().unwrap_or_default() {
                         let t = c["text"].as_str().unwrap_or("").to_string();
                         if !seen_choice_text.contains(&t) {
-                            epoch.w.extend(markers(&t, 'W'));
+                            step_w.extend(markers(&t, 'W'));
                             seen_choice_text.push(t);
                         }
                     }
                 }
+                epoch.w.extend(step_w.iter().copied());
+                if !setup.handler && !stopped_by_error {
+                    // no handler: what is readable after a continue is what THAT continue raised
+                    // (plus, for the first one, what the constructor or a reset left pending)
+                    let now: Vec<String> = o["warnings"].as_array().cloned().unwrap_or_default().iter().map(|w| w.as_str().unwrap_or("").to_string()).collect();
+                    for n in 1..=9usize {
+                        let expected = step_w.iter().filter(|&&k| k == n).count();
+                        let got = now.iter().filter(|m| m.contains(&format!("'ghost{n}'"))).count();
+                        if got != expected {
+                            let kind = if got > expected { "redelivered-or-spurious" } else { "lost" };
+                            bad = Some((format!("no-handler/warning/{kind}"), format!("op {i}: this continue raised the warning about ghost{n} {expected} time(s) (markers in its text) but {got} are readable after it: {now:?}")));
+                        }
+                    }
+                    let exp_v = usize::from(version_warning && first_cont_of_epoch);
+                    let got_v = now.iter().filter(|m| m.contains("Version of ink")).count();
+                    if bad.is_none() && got_v != exp_v {
+                        bad = Some(("no-handler/version-warning/count".into(), format!("op {i}: the version warning is readable {got_v} time(s) after this continue, expected {exp_v}")));
+                    }
+                    if bad.is_some() {
+                        break;
+                    }
+                }
+                first_cont_of_epoch = false;
                 if stopped_by_error && !r.starts_with("err") {
                     bad = Some(("continued-after-error".into(), format!("op {i}: a continue was accepted ({r}) although an error had stopped the story")));
                     break;
@@ -227,6 +266,7 @@ fn judge_path(prog: &Rc<Prog>, setup: &Setup, hist: &[Op], stats: &mut Stats) {
             }
             Op::Reset => {
                 epoch = Epoch { w: vec![], e: vec![] };
+                first_cont_of_epoch = true;
                 stopped_by_error = false;
                 log_start = 0; // the harness clears its log on reset
                 seen_choice_text.clear();
@@ -278,8 +318,8 @@ fn judge_path(prog: &Rc<Prog>, setup: &Setup, hist: &[Op], stats: &mut Stats) {
             let got = msgs.iter().filter(|(t, m)| *t == 'W' && m.contains(&format!("'ghost{n}'"))).count();
             // without a handler warnings are never cleared by reset in the current design; only
             // judge epochs without reset there
-            if !setup.handler && had_reset {
-                continue;
+            if !setup.handler {
+                continue; // accounted for continue by continue above
             }
             if got != expected {
                 let kind = if got > expected { "redelivered-or-spurious" } else { "lost" };
@@ -300,7 +340,7 @@ fn judge_path(prog: &Rc<Prog>, setup: &Setup, hist: &[Op], stats: &mut Stats) {
                 bad = Some((format!("{mode}/error/{kind}"), format!("{exp_e} error(s) raised on this path (E markers) but {got_e} delivered: {:?}", msgs.iter().filter(|(t, _)| *t == 'E').map(|(_, m)| m.clone()).collect::<Vec<_>>())));
             }
         }
-        if bad.is_none() && version_warning && !had_reset {
+        if bad.is_none() && version_warning && !had_reset && setup.handler {
             // (raised once per story object, so counted over the whole handler log, not only the
             // epoch that starts at a redirect)
             let got = if setup.handler {
@@ -309,7 +349,7 @@ fn judge_path(prog: &Rc<Prog>, setup: &Setup, hist: &[Op], stats: &mut Stats) {
                 msgs.iter().filter(|(t, m)| *t == 'W' && m.contains("Version of ink")).count()
             };
             let any_cont = hist.iter().any(|x| matches!(x, Op::Cont));
-            if (any_cont || !setup.handler) && got != 1 {
+            if any_cont && got != 1 {
                 bad = Some((format!("{mode}/version-warning/count"), format!("the constructor's version warning was delivered {got} time(s)")));
             }
         }
@@ -318,8 +358,8 @@ fn judge_path(prog: &Rc<Prog>, setup: &Setup, hist: &[Op], stats: &mut Stats) {
     if let Some((cls, what)) = bad {
         stats.violation(Violation {
             property: ID.into(),
-            class: format!("{ID}/{cls}"),
-            what: format!("{what} (program {})", prog.name),
+            class: format!("{ID}/{cls}{}", if slice.is_some() { "/sliced" } else { "" }),
+            what: format!("{what} (program {}{})", prog.name, slice.map(|k| format!(", every continue sliced after {k} step(s)")).unwrap_or_default()),
             artefact: hx::artefact("c13", prog, setup, json!({"history": hist_to_json(hist), "handler_log": inst.events_raw(), "final": inst.observe(false)})),
         });
     }
@@ -362,8 +402,15 @@ pub fn run(tier: Tier) -> i32 {
         };
         let hs = hx::histories(p, &setup, depth, &sig, st);
         for (h, _o) in &hs {
-            judge_path(p, &setup, h, st);
+            judge_path(p, &setup, h, None, st);
             st.inc("traces");
+            if handler {
+                for k in [1u64, 2, 3, 5, 8] {
+                    judge_path(p, &setup, h, Some(k), st);
+                    st.inc("traces");
+                    st.inc("traces_sliced");
+                }
+            }
         }
         st.sample(json!({"program": p.name, "handler": handler, "histories": hs.len()}));
         st.inc("programs");
@@ -384,7 +431,7 @@ pub fn run(tier: Tier) -> i32 {
         extra,
         vec![
             "raise model: a raise and its marker word are on the same line, so they are committed or discarded together; the markers in the delivered text are the raises that happened".into(),
-            "warnings without a handler are judged only in histories without reset (the current design never clears them); message texts are matched by the unique variable name only".into(),
+            "without a handler the readable warnings are compared after every continue with the raises of that continue; with a handler every path is also played with each continue sliced (5 budgets); message texts are matched by the unique variable name only".into(),
         ],
         started,
     )
